@@ -1123,6 +1123,46 @@ def gen_process_history_inputs(rng, n):
                "rseed": rng.randrange(10 ** 6)}
 
 
+def check_large_cell(inp) -> list:
+    """C01 / C03 where the flat tensor index exceeds 16 bits (>= 41 atoms at order 3 without a cutoff): a random
+    combination of the basis vectors, expanded to the full tensor, is symmetric under every index transposition and
+    obeys the sum rule on every index. (No dense reference at this size: only self-consistency is checked.)"""
+    cr = _cr(inp)
+    order = int(inp["order"])
+    N = len(cr.numbers)
+    bs = ph.basis_cls(order)(cr.atoms()).run()
+    nb = bs.basis_set.shape[1]
+    if nb == 0:
+        return []
+    out = []
+    coef = np.random.default_rng(inp.get("seed", 0)).normal(size=nb)
+    T = ph.expand(bs, coef, N, order)
+    sc = max(float(np.abs(T).max()), 1e-300)
+    a = ph.perm_asymmetry(T, order) / sc
+    if a > 1e-7:
+        out.append(f"order {order}, {N} atoms: expanded basis combination is not symmetric under index permutations "
+                   f"(rel. {a:.2e}); {nb} basis vectors")
+    for ax in range(order):
+        sr = float(np.abs(T.sum(axis=ax)).max()) / sc
+        if sr > 1e-6:
+            out.append(f"order {order}, {N} atoms: sum rule on index {ax} violated ({sr:.2e})")
+            break
+    return out
+
+
+def gen_large_cell_inputs(rng, n):
+    """supercells of a polar two-atom tetragonal cell with 41..48 atoms (few point operations, so that a damaged part
+    of the permutation stage is not projected out by symmetry)"""
+    for k in range(n):
+        dims = rng.choice([(7, 3, 1), (3, 7, 1), (1, 7, 3), (4, 3, 2), (11, 2, 1)])
+        zc = rng.choice([0.43, 0.37, 0.29])
+        L, B, Z = [[3.0, 0, 0], [0, 3.0, 0], [0, 0, 4.1]], [[0, 0, 0], [0.5, 0.5, zc]], [31, 33]
+        M = np.diag(dims)
+        cr = build_supercell("polar_tet", np.array(L, dtype=float), np.array(B, dtype=float), np.array(Z), M, rng=rng,
+                             shuffle=rng.random() < 0.5, shift=None)
+        yield {"crystal": cr, "order": 3, "orders": [3], "seed": rng.randrange(10 ** 6)}
+
+
 def check_solver_reuse(inp) -> list:
     """a solver OBJECT used for several datasets in a row (solve, read, solve, read ...): after every solve its
     accessors must return what a fresh solver object returns for that dataset alone, in both layouts, whatever was
@@ -1370,6 +1410,7 @@ CHECKS = {
     "api_invalid": check_api_invalid,
     "solver_reuse": check_solver_reuse,
     "process_history": check_process_history,
+    "large_cell": check_large_cell,
 }
 
 
